@@ -347,6 +347,7 @@ TIERS = {
     'quick': [('defer', dict(L=3, K=1)),
               ('defer', dict(L=1, K=2, build=True, cascade=True, fault=False), dict(required=['cascade-immediate', 'cascade-deferred', 'frame-deletes'])),
               ('defer', dict(L=1, K=1, build=True, ids=(0, '')), dict(required=['delete-deferred', 'frame-deletes', 'id-reused'])),
+              ('defer', dict(L=1, K=1, build=True, ids=((1, 2), 1)), dict(required=['delete-deferred', 'frame-deletes'])),
               ('defer', dict(L=2, K=2, build=True, ghost=True, fault=False, ids=(1,)),
                dict(required=['ghost-deleted', 'ghost-frame-failed', 'frame-deletes'])),
               ('defer', dict(L=1, K=1, build=True), dict(required=['delete-deferred', 'frame-deletes', 'frame-failed', 'recovered']))],
